@@ -153,3 +153,120 @@ Proof.
   assert (L : (Z.of_N v <=? min)%Z = false) by (apply Z.leb_gt; lia).
   rewrite L. reflexivity.
 Qed.
+
+(* ---- prefixed numerals (0b / 0o / 0x) ---- *)
+
+Lemma parse_loop_cons_dv : forall base base0 c s' n us,
+  parse_loop base base0 (c :: s') n us =
+      if (c =? 95) && base0 then parse_loop base base0 s' n true
+      else
+        match digit_val c with
+        | None => (PErr ESyntax, us)
+        | Some d =>
+            if base <=? d then (PErr ESyntax, us)
+            else if (maxu64 / base + 1) <=? n then (PErr ERange, us)
+            else if ((n * base + d) mod two64 <? n * base) || (maxu64 <? (n * base + d) mod two64)
+                 then (PErr ERange, us)
+                 else parse_loop base base0 s' ((n * base + d) mod two64) us
+        end.
+Proof. reflexivity. Qed.
+
+Lemma digit_not95 : forall c d, digit_val c = Some d -> (c =? 95) = false.
+Proof.
+  intros c d H. destruct (N.eqb_spec c 95) as [E|E]; auto.
+  subst. vm_compute in H. discriminate.
+Qed.
+
+Definition stepb (b a c : N) : N := a * b + match digit_val c with Some d => d | None => 0 end.
+
+Lemma foldb_ge : forall b, 0 < b -> forall ds n, n <= fold_left (stepb b) ds n.
+Proof.
+  intros b Hb. induction ds as [|c ds IH]; intros n.
+  - cbn [fold_left]. lia.
+  - change (fold_left (stepb b) (c :: ds) n) with (fold_left (stepb b) ds (stepb b n c)).
+    specialize (IH (stepb b n c)).
+    assert (n <= stepb b n c) by (unfold stepb; nia).
+    lia.
+Qed.
+
+Lemma maxu64_succ : maxu64 + 1 = two64.
+Proof. vm_compute; reflexivity. Qed.
+
+Lemma cutoff_ok : forall b n, 0 < b -> n * b < two64 -> (maxu64 / b + 1 <=? n) = false.
+Proof.
+  intros b n Hb H. apply N.leb_gt.
+  assert (n <= maxu64 / b).
+  { apply N.div_le_lower_bound; [lia|]. pose proof maxu64_succ. lia. }
+  lia.
+Qed.
+
+Lemma loop_base : forall b, 0 < b -> forall ds n, digits_in b ds = true ->
+  fold_left (stepb b) ds n < two64 ->
+  parse_loop b true ds n false = (POk (fold_left (stepb b) ds n), false).
+Proof.
+  intros b Hb. induction ds as [|a ds IH]; intros n Hall Hlt.
+  - reflexivity.
+  - rewrite parse_loop_cons_dv.
+    change (digits_in b (a :: ds)) with
+      ((match digit_val a with Some d => d <? b | None => false end) && digits_in b ds) in Hall.
+    apply andb_true_iff in Hall. destruct Hall as [Ha Hds].
+    change (fold_left (stepb b) (a :: ds) n) with (fold_left (stepb b) ds (stepb b n a)) in *.
+    pose proof (foldb_ge b Hb ds (stepb b n a)) as Hge.
+    destruct (digit_val a) as [d|] eqn:Ed; try discriminate.
+    assert (Hx : stepb b n a = n * b + d) by (unfold stepb; rewrite Ed; reflexivity).
+    rewrite Hx in *.
+    apply N.ltb_lt in Ha.
+    rewrite (digit_not95 _ _ Ed). cbn [andb].
+    assert (Hs : n * b + d < two64) by lia.
+    assert (Eb : b <=? d = false) by (apply N.leb_gt; lia).
+    rewrite Eb.
+    rewrite (cutoff_ok b n Hb) by lia.
+    rewrite (N.mod_small _ _ Hs).
+    assert (E1 : n * b + d <? n * b = false) by (apply N.ltb_ge; lia).
+    assert (E2 : maxu64 <? n * b + d = false).
+    { apply N.ltb_ge. pose proof maxu64_succ. lia. }
+    rewrite E1, E2. cbn [orb].
+    apply IH; auto.
+Qed.
+
+Lemma parse_uint0_prefixed : forall p b c r,
+  In (p, b) [(98,2); (66,2); (111,8); (79,8); (120,16); (88,16)] ->
+  parse_uint0 (48 :: p :: c :: r) =
+    match parse_loop b true (c :: r) 0 false with
+    | (POk n, us) => if us && negb (underscore_ok (48 :: p :: c :: r)) then PErr ESyntax else POk n
+    | (PErr e, _) => PErr e
+    end.
+Proof.
+  intros p b c r H. cbn [In] in H.
+  repeat (destruct H as [H|H]; [inversion H; subst; reflexivity|]).
+  destruct H.
+Qed.
+
+Theorem env_prefixed_accepted : forall p b ds min,
+  In (p, b) [(98,2); (66,2); (111,8); (79,8); (120,16); (88,16)] ->
+  ds <> [] -> digits_in b ds = true -> (0 <= min)%Z ->
+  (min < Z.of_N (base_val b ds) < 9223372036854775808)%Z ->
+  parse_or_default (48 :: p :: ds) min = EnvValue (Z.of_N (base_val b ds)).
+Proof.
+  intros p b ds min Hin Hne Hall Hmin Hv.
+  destruct ds as [|c r]; [congruence|]. clear Hne.
+  assert (Hb : 0 < b).
+  { pose proof Hin as H. cbn [In] in H.
+    repeat (destruct H as [H|H]; [inversion H; reflexivity|]). destruct H. }
+  assert (Hdv : base_val b (c :: r) = fold_left (stepb b) (c :: r) 0) by reflexivity.
+  remember (base_val b (c :: r)) as v eqn:Ev. clear Ev.
+  assert (Hv64 : v < two64) by (unfold two64; lia).
+  assert (HP : parse_uint0 (48 :: p :: c :: r) = POk v).
+  { rewrite (parse_uint0_prefixed p b c r Hin).
+    rewrite (loop_base b Hb); auto.
+    - rewrite <- Hdv. reflexivity.
+    - rewrite <- Hdv. auto. }
+  unfold parse_or_default. rewrite HP. cbv zeta.
+  assert (HT : to_int64 v = Z.of_N v).
+  { unfold to_int64. cbv zeta. rewrite (N.mod_small _ _ Hv64).
+    assert (C : v <? 9223372036854775808 = true) by (apply N.ltb_lt; lia).
+    rewrite C. reflexivity. }
+  rewrite HT.
+  assert (L : (Z.of_N v <=? min)%Z = false) by (apply Z.leb_gt; lia).
+  rewrite L. reflexivity.
+Qed.
